@@ -1207,6 +1207,10 @@ def check(program, rep):
     from .. import namelink as _nl
     rep.guard("C20-R5", _nl.rule, program, rep, "C20-R5",
               [m for m in sorted(program.modules) if m.startswith("rig.machine_control")])
+    # fields of the system structs are read / written / packed through
+    # sark.struct: no field of it runs into its neighbour (C14-R6)
+    from . import C14 as _C14
+    rep.guard("C14-R6", _C14.r_struct_no_overlap, program, rep, "C14-R6")
     return finish(rep, program, EXPLANATION, NOT_DECIDED,
                   trusted=["effects.py transfer functions",
                            "floor-division axioms in dataflow.axioms"])
